@@ -9,7 +9,7 @@ def run(tier, pid="C01", mode="rt"):
     c.mc("ByteIO", "MC_ByteIO", "MC_ByteIO.cfg", workers=8, timeout=1200)
     nsh = 4 if quick else 16
     traces = []
-    for k, sd in enumerate(vlib.seeds(tier, 6)):
+    for k, sd in enumerate(vlib.seeds(tier, 12)):
         traces += c.drive(exe, [[mode, "@OUT", tier, sd, i, nsh] for i in range(nsh)], tag="%s%d" % (mode, k))
     bads = c.validate("ByteIO", "Trace_ByteIO", traces, timeout=2400, xmx="6g")
     c.judge(bads)
